@@ -1115,6 +1115,12 @@ func checkGeometryAccess(c *core.Ctx, pkg *packages.Package, dense, sparse []str
 				return true // contiguous-direction sub-slice: start, length and branch of 'transposed' decided by C10.R2
 			case "MarshalJSON":
 				return true // view test and re-pack decided by C10.R5
+			case "AsDenseReal64Vector", "AsDenseReal32Vector", "AsSparseFloat64Vector", "AsSparseFloat32Vector", "AsSparseIntVector", "AsSparseInt8Vector",
+				"AsSparseInt16Vector", "AsSparseInt32Vector", "AsSparseInt64Vector", "AsSparseReal32Vector", "AsSparseReal64Vector":
+				// the raw storage is handed out only in the else-branch of a complete view test (same predicate as the encoders, R5)
+				if asVectorViewTestComplete(pkg, fd, strings.HasPrefix(T, "Dense")) {
+					return true
+				}
 			case "ITERATOR", "ITERATOR_FROM":
 				// sparse matrices iterate their delegate vector; that is right for a view exactly when the wrapper skips the
 				// entries outside the view: the constructor calls skipOutside() on the result, and skipOutside compares
@@ -1175,6 +1181,45 @@ func checkGeometryAccess(c *core.Ctx, pkg *packages.Package, dense, sparse []str
 			}
 		}
 	}
+}
+
+// asVectorViewTestComplete: the body is `if <view test> { gather element by element } else { return raw storage }` with a
+// view test that covers transposed (dense), rows < rowMax and cols < colMax, and the raw storage is read in the else-branch only.
+func asVectorViewTestComplete(pkg *packages.Package, fd *ast.FuncDecl, isDense bool) bool {
+	if len(fd.Body.List) == 0 {
+		return false
+	}
+	is, ok := fd.Body.List[0].(*ast.IfStmt)
+	if !ok || is.Else == nil {
+		return false
+	}
+	f := newFnCtx(pkg, fd)
+	disj := map[string]bool{}
+	var split func(e ast.Expr)
+	split = func(e ast.Expr) {
+		if be, ok := ast.Unparen(e).(*ast.BinaryExpr); ok && be.Op == token.LOR {
+			split(be.X)
+			split(be.Y)
+			return
+		}
+		disj[f.norm(e)] = true
+	}
+	split(is.Cond)
+	rowsT := disj["R.rowMax > R.rows"] || disj["R.rows < R.rowMax"] || disj["R.rowMax != R.rows"] || disj["R.rows != R.rowMax"]
+	colsT := disj["R.colMax > R.cols"] || disj["R.cols < R.colMax"] || disj["R.colMax != R.cols"] || disj["R.cols != R.colMax"]
+	trT := !isDense || disj["R.transposed"]
+	if !rowsT || !colsT || !trT {
+		return false
+	}
+	// no use of the raw storage in the view branch
+	raw := false
+	ast.Inspect(is.Body, func(n ast.Node) bool {
+		if se, ok := n.(*ast.SelectorExpr); ok && se.Sel.Name == "values" {
+			raw = true
+		}
+		return true
+	})
+	return !raw
 }
 
 // sparseIteratorSkipsOutside: fd (ITERATOR / ITERATOR_FROM of sparse matrix type T) calls r.skipOutside() on the iterator
